@@ -12,7 +12,7 @@ import re
 
 from sa.cfg import CFG
 from sa.core import AnalysisError, loc, short, unparse, walk_no_nested
-from sa.guards import facts, guarded
+from sa.guards import assert_facts, facts, guarded
 from sa.resolve import Resolver
 
 VALIDATE = "FIXSchema.validate"
@@ -25,6 +25,8 @@ def path_facts(g, nid):
     fs = set()
     for t, lab in g.guards(nid, exc=False):
         fs |= facts(t, lab == "true")
+    # `assert isinstance(field, SchemaField)` after the group arm of a guard-clause validator is the same knowledge as an `elif`
+    fs |= assert_facts(g, nid)
     return fs
 
 
@@ -201,7 +203,18 @@ def run(ctx):
     gfn = repo.func(GROUP)
     upd = [n for n in gg.nodes if n.kind == "stmt" and isinstance(n.ast, ast.Assign) and unparse(n.ast.targets[0]) == PREV and unparse(n.ast.value) == ORD]
     first = [n for n in gg.nodes if n.kind == "stmt" and isinstance(n.ast, ast.Assign) and unparse(n.ast.targets[0]) == FIRST and unparse(n.ast.value) == "True"]
-    ok = bool(upd) and all(not has(path_facts(gg, n.id), r"isinstance\(\w+, Schema\w+\)") for n in upd)
+    # every way through one member of the item (loop head to loop head, not raising) passes an update of the previous index
+    inner = [n.id for n in gg.nodes if n.kind == "for" and isinstance(n.ast, ast.For) and isinstance(n.ast.target, ast.Tuple)
+             and any(x.ast in n.ast.body or any(x.ast is y for b in n.ast.body for y in ast.walk(b)) for x in upd if x.ast is not None)]
+    ok = bool(upd) and bool(inner)
+    stale = None
+    for h in inner:
+        for d, lab in gg.succs(h, exc=False):
+            nd = gg.nodes[d]
+            if nd.ast is None or not any(nd.ast is y for b in gg.nodes[h].ast.body for y in ast.walk(b)):
+                continue
+            stale = stale or (gg.witness_path(d, [h], avoid={n.id for n in upd}, exc=False) if d not in {n.id for n in upd} else None)
+    ok = ok and stale is None
     ctx.instance(R2, "validate_group[previous index updated for every member]", ok,
                  "the previous-index local is not updated to the current member's index for every member kind: the order test compares with a stale index", loc(gfn))
     ok = bool(first) and all(has(path_facts(gg, n.id), rf"{ORD} == 0") for n in first)
@@ -409,6 +422,15 @@ def _sibling_dicts(fn, d):
     return out
 
 
+def block_of_node(stmt):
+    p = getattr(stmt, "_parent", None)
+    for field in ("body", "orelse", "finalbody"):
+        lst = getattr(p, field, None)
+        if isinstance(lst, list) and stmt in lst:
+            return lst
+    return None
+
+
 def declaration_order(ctx, R4, repo, res):
     pc = repo.func("FIXSchema._parse_component")
     fresh = any(isinstance(c, ast.Call) and unparse(c.func) == "SchemaComponent" for c in walk_no_nested(pc))
@@ -435,7 +457,7 @@ def declaration_order(ctx, R4, repo, res):
     ctx.instance(R4, "_parse_msg_set[component looked up only when declared]", ok, "a referenced component is looked up without the 'already parsed' test: KeyError for forward references", loc(ms))
     pf = repo.func("FIXSchema._parse")
     pg = CFG(pf)
-    pending = _assigned(pf, lambda v: isinstance(v, ast.ListComp) and "components" in unparse(v))
+    pending = _assigned(pf, lambda v: (isinstance(v, ast.ListComp) or (isinstance(v, ast.Call) and unparse(v.func) == "list")) and "components" in unparse(v))
     pending = pending[0] if pending else "?"
     cnts = [n for n in _assigned(pf, lambda v: unparse(v) == f"len({pending})")]
     whiles = [n for n in pg.nodes if n.kind == "test" and unparse(n.ast) == pending]
@@ -443,10 +465,34 @@ def declaration_order(ctx, R4, repo, res):
     raises = [n for n in pg.nodes if n.kind == "stmt" and isinstance(n.ast, ast.Raise) and any(has(path_facts(pg, n.id), rf"len\({pending}\) == {c}") for c in set(cnts))]
     ok = bool(whiles) and bool(msgs) and all(pg.dominated_by(m.id, whiles[0].id, "false", exc=False) or not pg.reaches(pg.entry, m.id, avoid={whiles[0].id}, exc=False) for m in msgs)
     ctx.instance(R4, "_parse[messages after the component fixpoint]", ok, "messages are parsed before every component is resolved", loc(pf))
-    ctx.instance(R4, "_parse[no progress => error]", bool(raises), "the deferred-resolution loop has no 'no progress' exit: a truly circular dictionary loops forever", loc(pf))
+    # the same loop written with a per-round flag: cleared when a round starts, set exactly where an element is taken off the pending
+    # list, error raised after the round when it is still clear
+    removals = [n for n in pg.nodes if n.kind == "stmt" and ((isinstance(n.ast, ast.Delete) and any(unparse(t).startswith(f"{pending}[") for t in n.ast.targets))
+                                                             or unparse(n.ast) .startswith(f"{pending}.remove("))]
+    flag_ok = flag_upd = False
+    if not raises and whiles:
+        wnode = whiles[0].ast
+        wstmt = getattr(wnode, "_parent", None)
+        body0 = wstmt.body if isinstance(wstmt, ast.While) else []
+        for st0 in body0[:1]:
+            if isinstance(st0, ast.Assign) and isinstance(st0.targets[0], ast.Name) and isinstance(st0.value, ast.Constant) and st0.value.value is False:
+                fl = st0.targets[0].id
+                sets_ = [n for n in pg.nodes if n.kind == "stmt" and isinstance(n.ast, ast.Assign) and unparse(n.ast.targets[0]) == fl and unparse(n.ast.value) == "True"]
+                rz = [n for n in pg.nodes if n.kind == "stmt" and isinstance(n.ast, ast.Raise) and has(path_facts(pg, n.id), re.escape(fl), False)
+                      and isinstance(wstmt, ast.While) and any(n.ast is y for b in wstmt.body for y in ast.walk(b))]
+                # the flag is set on every way through a removal, and nowhere else; it is not set unconditionally
+                with_removal = bool(sets_) and bool(removals) and all(any(block_of_node(s_.ast) is block_of_node(r_.ast) for r_ in removals) for s_ in sets_) \
+                    and all(any(block_of_node(s_.ast) is block_of_node(r_.ast) for s_ in sets_) for r_ in removals)
+                others = [n for n in pg.nodes if n.kind == "stmt" and isinstance(n.ast, (ast.Assign, ast.AugAssign)) and fl in
+                          [unparse(t) for t in (n.ast.targets if isinstance(n.ast, ast.Assign) else [n.ast.target])] and n.ast is not st0 and n not in sets_]
+                flag_ok = bool(rz)
+                flag_upd = with_removal and not others
+    ctx.instance(R4, "_parse[no progress => error]", bool(raises) or flag_ok, "the deferred-resolution loop has no 'no progress' exit: a truly circular dictionary loops forever", loc(pf))
     prog = [c for c in set(cnts) if any(has(path_facts(pg, n.id), rf"len\({pending}\) == {c}") for n in raises)]
     upd = [n for n in pg.nodes if n.kind == "stmt" and isinstance(n.ast, ast.Assign) and prog and unparse(n.ast.targets[0]) == prog[0] and unparse(n.ast.value) == f"len({pending})"]
-    ctx.instance(R4, "_parse[progress counter updated]", len(upd) >= 2, "the progress counter is not updated after a round that made progress: the next round is taken for 'no progress'", loc(pf))
+    ctx.instance(R4, "_parse[progress counter updated]", len(upd) >= 2 or flag_upd,
+                 "the progress bookkeeping does not follow the rounds (counter not refreshed after a round that made progress / flag not set exactly where an element is "
+                 "resolved): a round is taken for 'no progress' although it resolved something, or the other way round", loc(pf))
     hdr = [n for n in pg.nodes if n.kind == "stmt" and "self._parse_header(" in unparse(n.ast)]
     comp_n = [n for n in pg.nodes if n.kind in ("stmt", "test") and "self._parse_component(" in unparse(n.ast)]
     if hdr and comp_n and not pg.reaches(comp_n[0].id, hdr[0].id, exc=False):
